@@ -19,7 +19,8 @@ use std::collections::{BTreeMap, BTreeSet};
 use std::rc::Rc;
 use std::time::Instant;
 
-pub const FAMILIES: [&str; 9] = [
+pub const FAMILIES: [&str; 10] = [
+    "deep-chain-short-sibling",
     "skipped-chain-behind-ephemeral",
     "chain-output",
     "chain-ephemeral-leaf-output",
@@ -101,6 +102,21 @@ fn build_family(family: &str, n: usize) -> (Vec<Def>, GraphState, usize, usize) 
                 }
             }
             (defs, g, 0, n - 1)
+        }
+        "deep-chain-short-sibling" => {
+            // C0 <- C1 <- ... <- C(n-3) <- D -> X : a leaf with inputs at very unequal depths (all Outputs)
+            let x = add(&mut defs, &mut g, Kind::Output);
+            let mut prev = add(&mut defs, &mut g, Kind::Output);
+            let first = prev;
+            for _ in 0..n.saturating_sub(3).max(1) {
+                let j = add(&mut defs, &mut g, Kind::Output);
+                g.edges.insert((j, prev), vec![]);
+                prev = j;
+            }
+            let d = add(&mut defs, &mut g, Kind::Output);
+            g.edges.insert((d, prev), vec![]);
+            g.edges.insert((d, x), vec![]);
+            (defs, g, first, d)
         }
         "skipped-chain-behind-ephemeral" => {
             // 0: Y (Always)   1: E (Ephemeral root)   2..n-2: chain of Outputs below E   n-1: X (Output) <- E, Y
@@ -580,8 +596,13 @@ pub fn cmd_case(args: &[String]) -> i32 {
     let cascade = args[2].clone();
     let order = args[3].clone();
     let hs: u64 = args[4].parse().unwrap_or(0);
+    // Families without Ephemerals never make the (unchanged) engine recurse, so their stack need
+    // must not grow with depth: run them on a small stack, which turns "would overflow 8 MiB at
+    // depth ~50 000" into a failure at depth ~2 000. Everything else gets the Linux default 8 MiB.
+    let small = matches!(family.as_str(), "chain-output" | "chain-always-root" | "deep-chain-short-sibling");
+    let stack = std::env::var("VERIF_STACK_KIB").ok().and_then(|s| s.parse::<usize>().ok()).map(|k| k << 10).unwrap_or(if small { 256 << 10 } else { 8 << 20 });
     let h = std::thread::Builder::new()
-        .stack_size(8 << 20)
+        .stack_size(stack)
         .spawn(move || run_case(&family, size, &cascade, &order, hs))
         .unwrap();
     match h.join() {
